@@ -11,7 +11,7 @@ TRUSTED = [
     "harness/src/oracle.rs: independent exact winding-number classifier used to judge pixels (not tiny-skia code)",
 ]
 ASSUMPTIONS = [
-    "curve edges (QuadraticEdge/CubicEdge forward differencing) and the float edge clipper are not modelled: they are judged by the classifier oracle only (partial)",
+    "the float edge clipper and the chopping of curves into monotone pieces (edge_builder) are not modelled: they are judged by the classifier oracle only (partial); QuadraticEdge / CubicEdge themselves are modelled bit-exactly (Model/CurveEdge.v) but the walker model (Walk.v) is still line-only",
     "Rect::round truncation (aliased fill_rect of fractional rects) is a known finding",
 ]
 RULE = ("(a) LineEdge::new on boundary/random segments, bit-exact; (b) polygons/stars/multi-contour polylines on the 1/64 "
